@@ -45,7 +45,7 @@ def strategy(tier):
     def _s(draw):
         case = draw(
             SC.solve_case(
-                families=("nlp", "nlp", "qp", "degenerate", "infeasible"),
+                families=("nlp", "nlp", "qp", "degenerate", "infeasible", "concavebox"),
                 max_n=4 if tier == "quick" else 6,
                 max_m=3,
                 scalings=("none", "none", "custom"),
